@@ -83,6 +83,10 @@ round2('C13-m3', 'C13', 'm1', [('c13_m1_demo_test.go', 'json')], GT + "-run Test
 round2('C13-m4', 'C13', 'm2', [('c13_m2_demo_test.go', 'conv')], GT + "-run TestC13M2 ./conv")
 round2('C15-m3', 'C15', 'm1', [('c15m1_demo_test.go', 'internal/c15m1demo')], GT + "-v -run TestNineAlternativeAPIKeys ./internal/c15m1demo/")
 round2('C15-m4', 'C15', 'm2', [('c15m2_demo_test.go', 'internal/c15m2demo')], GT + "-v -run TestRepeatedScalarParameter ./internal/c15m2demo/")
+round2('C16-m3', 'C16', 'm1', [('c16_m1_demo_test.go', 'jsonpointer')], GT + "-run TestC16M1 ./jsonpointer/")
+round2('C16-m4', 'C16', 'm2', [('c16_m2_demo_test.go', 'jsonpointer')], GT + "-run TestC16M2 ./jsonpointer/")
+round2('C08-m3', 'C08', 'm1', [('c08_m1_demo_test.go', 'ogenregex')], GT + "-run TestC08M1NamedBackreference ./ogenregex/")
+round2('C08-m4', 'C08', 'm2', [('c08_m2_demo_test.go', 'ogenregex')], GT + "-run TestC08M2SurrogatePairEscape ./ogenregex/")
 # round2-entries
 TABLE.update(json.load(open('/verif/tools/seeded_extra.json')) if os.path.exists('/verif/tools/seeded_extra.json') else {})
 
